@@ -207,7 +207,13 @@ impl<S: Read + Write> Client<S> {
     /// ```
     pub fn connect(mut tpkt: tpkt::Client<S>, security_protocols: u32, check_certificate: bool, authentication_protocol: Option<&mut dyn AuthenticationProtocol>, restricted_admin_mode: bool, blank_creds: bool) -> RdpResult<Client<S>> {
         Self::write_connection_request(&mut tpkt, security_protocols, Some(if restricted_admin_mode { RequestMode::RestrictedAdminModeRequired as u8} else { 0 }))?;
-        match Self::read_connection_confirm(&mut tpkt)? {
+        let selected_protocol = Self::read_connection_confirm(&mut tpkt)?;
+        // The server must choose among the protocols we requested
+        // standard RDP security is only acceptable when nothing else was requested
+        if (selected_protocol as u32 & security_protocols) == 0 && !(selected_protocol as u32 == Protocols::ProtocolRDP as u32 && security_protocols == Protocols::ProtocolRDP as u32) {
+            return Err(Error::RdpError(RdpError::new(RdpErrorKind::InvalidProtocol, "Server selected a security protocol that was not requested")))
+        }
+        match selected_protocol {
             Protocols::ProtocolHybrid => {
                 let authentication_protocol = authentication_protocol.ok_or(Error::RdpError(RdpError::new(RdpErrorKind::InvalidProtocol, "NLA selected without authentication protocol")))?;
                 Ok(Client::new(tpkt.start_nla(check_certificate, authentication_protocol, restricted_admin_mode || blank_creds)?,Protocols::ProtocolHybrid))
